@@ -394,6 +394,33 @@ func checkC10(c *Ctx) {
 				}
 			}
 		}
+		// the destination handed to WriteTo is the created file itself; if a layer stands in between (buffering),
+		// every fallible call on that layer (Flush) must be reported like WriteTo's own error
+		if dst := strip(s.call.Common().Args[1]); dst != nil {
+			isFile := false
+			if ex, okx := dst.(*ssa.Extract); okx {
+				if cc, okc := ex.Tuple.(*ssa.Call); okc {
+					q := calleeQual(cc)
+					isFile = q == "os.Create" || q == "os.OpenFile"
+				}
+			}
+			if !isFile {
+				nLayer := 0
+				for _, s2 := range errorSites(writeFile) {
+					cc := s2.call.Common()
+					if s2.call == s.call || len(cc.Args) == 0 || strip(cc.Args[0]) != dst {
+						continue
+					}
+					nLayer++
+					d2 := classifyErr(writeFile, s2)
+					key := "WriteFile: " + calleeQual(s2.call) + " on the layer between WriteTo and the file"
+					c.Check(!d2.discarded && len(d2.problems) == 0 && d2.compared > 0, "C10.4", key, p.Pos(s2.call.Pos()), "error tested and reported", fmt.Sprintf("the error of %s is not reported (discarded=%v problems=%v): bytes still buffered when WriteTo returned can be lost silently", calleeQual(s2.call), d2.discarded, d2.problems))
+				}
+				if nLayer == 0 {
+					c.Bad("C10.4", "WriteFile: destination of WriteTo", p.Pos(s.call.Pos()), "WriteTo writes into something that is not the created file and whose completion (flush) is never checked")
+				}
+			}
+		}
 		c.Check(ok && rm, "C10.4", "WriteFile <- WriteTo", p.Pos(s.call.Pos()), "error tested; non-nil edge removes the file and returns a non-nil error", fmt.Sprintf("WriteTo's error not fully reported by WriteFile (discarded=%v problems=%v removeOnError=%v)", d.discarded, d.problems, rm))
 	}
 	if !found {
